@@ -437,6 +437,12 @@ def run(ctx):
             seen_e.add((fn.file, fn.line))
             ne += rule_e_bulk_write_fits(ctx, fn)
     ctx.require_count("C11.e-bulk-write-fits-storage", 2)
+    # f: element-wise arithmetic walks its operands together: in every loop over several iterators (xapyb, sapyb, ...) each iterator
+    # advances exactly once per iteration on every path (with the operand range guards of rule c this keeps every access in range)
+    from engine.loops import lockstep_sweep
+
+    lockstep_sweep(ctx, "C11.f-elementwise-lockstep", [f for f in defs if not f.is_dependent])
+    ctx.require_count("C11.f-elementwise-lockstep", 4)
     ctx.require_count("C11.d-new-elements-zeroed", 3)
     ctx.stats["definitions_analysed"] = len(defs)
     ctx.require_count("C11.a-index-provenance", 60)
